@@ -55,9 +55,10 @@ enum Kind {
     CmdSubst,
     PipeFirst,
     PipeLast,
+    PipeMiddle,
     Async,
 }
-const KINDS: [Kind; 5] = [Kind::Paren, Kind::CmdSubst, Kind::PipeFirst, Kind::PipeLast, Kind::Async];
+const KINDS: [Kind; 6] = [Kind::Paren, Kind::CmdSubst, Kind::PipeFirst, Kind::PipeLast, Kind::PipeMiddle, Kind::Async];
 
 impl Kind {
     fn wrap(self, body: &str) -> String {
@@ -66,6 +67,7 @@ impl Kind {
             Kind::CmdSubst => format!(": $( {body} )"),
             Kind::PipeFirst => format!("{{ {body}; }} | cat"),
             Kind::PipeLast => format!("s 0 | {{ {body}; }}"),
+            Kind::PipeMiddle => format!("s 0 | {{ {body}; }} | cat | cat"),
             Kind::Async => format!("{{ {body}; }} & wait $!"),
         }
     }
